@@ -553,6 +553,7 @@ type LogFactory struct {
 	In  [][]byte
 	Out [][]byte
 	Events []string
+	InN    []int // event number of each inbound frame (parallel to In)
 	mu  sync.Mutex
 	OnIn func(b []byte)
 }
@@ -572,10 +573,11 @@ func (l *simLog) OnIncoming(b []byte) {
 		return
 	}
 	c := append([]byte(nil), b...)
+	n := l.f.env.Rec("log:"+l.f.eng.Cfg.Name, "in", string(c), true)
 	l.f.mu.Lock()
 	l.f.In = append(l.f.In, c)
+	l.f.InN = append(l.f.InN, n)
 	l.f.mu.Unlock()
-	l.f.env.Rec("log:"+l.f.eng.Cfg.Name, "in", string(c), true)
 	if l.f.OnIn != nil {
 		l.f.OnIn(c)
 	}
